@@ -22,7 +22,7 @@ func runC07(c *rt.C) {
 	r := c.Rng
 	mem := []string{"poison", "pageguard"}[c.Index%2]
 	if c.Index%16 >= 14 {
-		nodeListLifecycle(c, mem)
+		nodeListLifecycle(c, mem, (c.Index/16)%2 == 1)
 		c.Evals(1)
 		return
 	}
@@ -224,11 +224,14 @@ func c07FailedRestore(c *rt.C, mem string) {
 	c.Sample(witness)
 }
 
-// nodeListLifecycle: user-managed memory; nodes returned by Put2 are chained in the library's own
-// NodeList (which uses the node's link field); one of them is taken off the list and deleted in the
-// epoch it was inserted in (the delete flushes that single node to the free workers). Nothing but
-// that node and its item may be released, and Close() must release everything exactly once.
-func nodeListLifecycle(c *rt.C, mem string) {
+// nodeListLifecycle: nodes returned by Put2 are chained in the library's own NodeList (which uses
+// the node's link field); one of them is taken off the list and deleted — in the epoch it was
+// inserted in (the delete flushes that single node to the free workers) or, crossEpoch, one epoch
+// later (the node joins the writer's garbage list, is handed to the next snapshot and collected
+// once the older snapshots are closed while a newer one stays open). Nothing but that node and
+// its item may be unlinked or released: the newer snapshot must still show every other key, and
+// Close() must release everything exactly once (user-managed memory).
+func nodeListLifecycle(c *rt.C, mem string, crossEpoch bool) {
 	r := c.Rng
 	db := OpenDB(DBOpt{Mem: mem})
 	w := db.N.NewWriter()
@@ -240,11 +243,15 @@ func nodeListLifecycle(c *rt.C, mem string) {
 		nodes = append(nodes, nd)
 		nl.Add(nd)
 	}
-	// remove one node (head, middle or tail of the list) and delete it in the same epoch
+	var s1 *nitro.Snapshot
+	if crossEpoch {
+		s1, _ = db.N.NewSnapshot()
+	}
+	// remove one node (head, middle or tail of the list) and delete it
 	victim := r.Intn(n)
 	key := KeyBytes(victim)
 	got := nl.Remove(key)
-	witness := map[string]interface{}{"mem": mem, "nodes": n, "victim": victim, "list_position": posClass(n-1-victim, n)}
+	witness := map[string]interface{}{"mem": mem, "nodes": n, "victim": victim, "list_position": posClass(n-1-victim, n), "delete_one_epoch_after_insert": crossEpoch}
 	if got != nodes[victim] {
 		c.Violate("nodelist-remove", "NodeList.Remove did not return the node that was added for the key", witness)
 		return
@@ -253,23 +260,40 @@ func nodeListLifecycle(c *rt.C, mem string) {
 		c.Violate("deletenode-result", "DeleteNode of a live node returned false", witness)
 		return
 	}
+	var s3 *nitro.Snapshot
+	if crossEpoch {
+		s2, _ := db.N.NewSnapshot() // owns the garbage list with the victim
+		s3, _ = db.N.NewSnapshot()  // newer, stays open
+		s1.Close()
+		s2.Close() // collected in order: the victim is unlinked and released
+		db.N.GC()
+	}
 	if !Quiesce(db.N) {
 		c.Inconclusive("quiescence probe did not settle")
 		return
 	}
 	// the other nodes are still live items of the database: their blocks must be live
-	for i, nd := range nodes {
-		if i == victim {
-			continue
-		}
-		if !db.A.IsLive(unsafe.Pointer(nd)) || !db.A.IsLive(nd.Item()) {
-			c.Violate("freed-while-linked", fmt.Sprintf("after the same-epoch DeleteNode of one list member, the node or item of another, still live key (k%d) has been released", i), witness)
-			return
+	if db.A != nil {
+		for i, nd := range nodes {
+			if i == victim {
+				continue
+			}
+			if !db.A.IsLive(unsafe.Pointer(nd)) || !db.A.IsLive(nd.Item()) {
+				c.Violate("freed-while-linked", fmt.Sprintf("after the DeleteNode of one list member (and its collection), the node or item of another, still live key (k%d) has been released", i), witness)
+				return
+			}
 		}
 	}
 	keys := nl.Keys()
 	if len(keys) != n-1 {
 		c.Violate("nodelist-keys", fmt.Sprintf("NodeList has %d keys after removing one of %d", len(keys), n), witness)
+	}
+	if s3 != nil {
+		sc, _ := Scan(s3, 0)
+		if len(sc) != n-1 || int(s3.Count()) != n-1 {
+			c.Violate("snapshot-content", fmt.Sprintf("open snapshot taken after the delete of one of %d keys: after the older snapshots were closed and collected its scan returns %d items and Count()=%d, want %d (collection of the deleted node's garbage list removed live items)", n, len(sc), s3.Count(), n-1), witness)
+		}
+		s3.Close()
 	}
 	s, _ := db.N.NewSnapshot()
 	if sc, _ := Scan(s, 0); len(sc) != n-1 {
@@ -277,8 +301,10 @@ func nodeListLifecycle(c *rt.C, mem string) {
 	}
 	s.Close()
 	db.N.Close()
-	reportAlloc(c, db.A, witness, "after Close (NodeList lifecycle)")
-	c.Sig("nodelist/n=%d/pos=%s/mem=%s", min(n, 5), posClass(n-1-victim, n), mem)
+	if db.A != nil {
+		reportAlloc(c, db.A, witness, "after Close (NodeList lifecycle)")
+	}
+	c.Sig("nodelist/n=%d/pos=%s/mem=%s/cross-epoch=%v", min(n, 5), posClass(n-1-victim, n), mem, crossEpoch)
 	c.Sample(witness)
 }
 
